@@ -7,7 +7,7 @@ import types
 
 TOOL = 4  # a free sys.monitoring tool id
 _mon = sys.monitoring
-_state = {"on": False, "count": {}, "total": 0, "budget": None}
+_state = {"on": False, "count": {}, "total": 0, "budget": None, "per": None}
 
 
 class BudgetExceeded(Exception):
@@ -39,9 +39,12 @@ def _on_jump(code, src, dst):
         st = _state
         if st["on"]:
             k = code.co_name
-            st["count"][k] = st["count"].get(k, 0) + 1
+            c = st["count"][k] = st["count"].get(k, 0) + 1
             st["total"] += 1
             if st["budget"] is not None and st["total"] > st["budget"]:
+                st["on"] = False
+                raise BudgetExceeded(k)
+            if st["per"] and k in st["per"] and c > st["per"][k]:
                 st["on"] = False
                 raise BudgetExceeded(k)
     return None
@@ -66,12 +69,36 @@ def install():
     _installed = True
 
 
+def _margin(fn, budget, per, st, out):
+    """KNEE_BUDGET_STATS=<file>: log calls that used more than 2% of a hard stop (to audit the margins)."""
+    import os
+    f = os.environ.get("KNEE_BUDGET_STATS")
+    if not f or not budget:
+        return
+    r = st["total"] / float(budget)
+    rp = max([st["count"].get(k, 0) / float(v) for k, v in (per or {}).items()] or [0.0])
+    if r > 0.02 or rp > 0.25 or out in ("budget", "watchdog"):
+        with open(f, "a") as fh:
+            fh.write("%s %s total=%.4f per=%.4f %s\n" % (os.environ.get("KNEE_CHECK_ID", "?"), getattr(fn, "__name__", "?"), r, rp, out))
+
+
 def _alarm(*a):
     raise WatchdogTimeout()
 
 
-def call(fn, args, kwargs=None, budget=20000, wall=20):
+def quad(n, c=8):
+    """A total back-edge budget that is sound for code doing at most linearly many steps of at most linear work:
+    the budget only has to turn a hang into a recorded outcome, it must never cut a run that would have returned."""
+    return c * n * n + 4000 * n + 200000
+
+
+def call(fn, args, kwargs=None, budget=20000, wall=20, per=None):
     """Run fn(*args) under the back-edge budget and the watchdog.
+    budget: hard stop over ALL back-edges of library code (a hang detector: callers pass a bound that no
+            returning execution can reach); per: {code name: limit} hard stops for the loops whose iteration
+            count a property bounds (a spinning refinement loop is cut after its own, linear, limit).
+    wall:   seconds of *CPU time of this process* (ITIMER_VIRTUAL), so that a loaded machine cannot turn a
+            slow but returning call into a 'watchdog' outcome; a real-time alarm at 30x is the last backstop.
     Returns (outcome, value, counts): outcome in {'returned','raised:<Type>','budget','watchdog'}."""
     install()
     kwargs = kwargs or {}
@@ -79,9 +106,12 @@ def call(fn, args, kwargs=None, budget=20000, wall=20):
     st["count"] = {}
     st["total"] = 0
     st["budget"] = budget
+    st["per"] = per
     st["on"] = True
     old = signal.signal(signal.SIGALRM, _alarm)
-    signal.alarm(wall)
+    oldv = signal.signal(signal.SIGVTALRM, _alarm)
+    signal.alarm(30 * wall)
+    signal.setitimer(signal.ITIMER_VIRTUAL, wall)
     try:
         v = fn(*args, **kwargs)
         out = "returned"
@@ -92,7 +122,10 @@ def call(fn, args, kwargs=None, budget=20000, wall=20):
     except Exception as ex:  # the library raised: a recorded outcome, not a harness error
         v, out = repr(ex)[:200], "raised:" + type(ex).__name__
     finally:
+        signal.setitimer(signal.ITIMER_VIRTUAL, 0)
         signal.alarm(0)
         signal.signal(signal.SIGALRM, old)
+        signal.signal(signal.SIGVTALRM, oldv)
         st["on"] = False
+    _margin(fn, budget, per, st, out)
     return out, v, dict(st["count"])
